@@ -97,6 +97,28 @@ class Prop(BaseProp):
                     return Verdict('spec', case, 'a sole input is not returned as it is')
                 if ct != mc:
                     return Verdict('diverge', case, 'combine_expressions', impl=ct, model=mc)
+                # the same inputs given as strings (any spelling the grammar allows: operator case, blank runs, redundant
+                # parentheses, padding) or as a mix of strings and objects: the same duplicate rule, the same result
+                r = _random.Random(len(repr(tree)) * 7 + 1)
+                mixed = []
+                for x, o in zip(tree[1:], parts):
+                    # combine_expressions reads strings with the simple tokenizer: one word per license there
+                    if r.random() < 0.75 and all(len(k.split()) == 1 for a in gen.atoms_of(x) for k in ([a[1]] if a[0] == 'sym' else [a[1], a[3]])):
+                        tx = gen.tree_text(r, x, redundant=0.3)
+                        if r.random() < 0.3:
+                            tx = gen.blank_run(r) + tx + gen.blank_run(r)
+                        mixed.append(tx)
+                    else:
+                        mixed.append(o)
+                if all(impl.lower_is_charwise(m) for m in mixed if isinstance(m, str)):
+                    try:
+                        c2 = impl.tree_c(impl.le.combine_expressions(mixed, relation=rel, unique=unique, licensing=lic))
+                    except BaseException as ex:  # noqa
+                        return Verdict('spec', dict(case, inputs=[m if isinstance(m, str) else str(m) for m in mixed]),
+                                       'combine_expressions raised %s on string inputs' % type(ex).__name__)
+                    if c2 != want:
+                        return Verdict('spec', dict(case, inputs=[m if isinstance(m, str) else str(m) for m in mixed]),
+                                       'combine_expressions result on string inputs', impl=c2, model=want)
         return Verdict('ok', case, impl=dt, nontrivial=dt != before, tags=['changed=%s' % (dt != before)])
 
     def run(self, drv, rng, tier, index, nworkers, scale):
